@@ -12,6 +12,7 @@ import (
 	"os"
 	"runtime"
 	"strconv"
+	"strings"
 
 	"verif/checks"
 	"verif/sim/core"
@@ -45,7 +46,16 @@ func main() {
 		if len(os.Args) > 4 {
 			tier = os.Args[4]
 		}
-		res := c.Run(tape.New(rs), core.RunOpt{Tier: tier, WantSample: true, Replay: true})
+		tp := tape.New(rs)
+		if len(os.Args) > 5 {
+			var vals []uint64
+			for _, x := range strings.Split(os.Args[5], ",") {
+				v, _ := strconv.ParseUint(x, 10, 64)
+				vals = append(vals, v)
+			}
+			tp = tape.Replay(vals)
+		}
+		res := c.Run(tp, core.RunOpt{Tier: tier, WantSample: true, Replay: true})
 		b, _ := json.MarshalIndent(res, "", " ")
 		fmt.Println(string(b))
 		os.Exit(0)
